@@ -193,12 +193,15 @@ struct Outcome
 	std::string log;
 };
 
+static bool g_live_replay = false;
 static Outcome run_inproc(const Clause& cl, const std::vector<uint64_t>& words, int size, bool verbose)
 {
 	Outcome o;
 	Src s(words, size);
 	Ctx c(s);
 	c.verbose = verbose;
+	if(verbose && g_live_replay)
+		c.live_fd = detail::g_out_fd;
 	detail::capture_reset();
 	try
 	{
@@ -794,8 +797,11 @@ static int mode_replay(const std::string& path, bool quiet)
 		out("REPLAY-ERROR unknown clause " + clname + "\n");
 		return 2;
 	}
-	Outcome o = run_forked(*cl, words, size, true, std::max(60.0, cl->timeout_s * 3));
+	g_live_replay = !quiet;
 	if(!quiet)
+		out("case " + std::string(kPropertyId) + "." + clname + " size=" + std::to_string(size) + " words=" + std::to_string(words.size()) + "\n");
+	Outcome o = run_forked(*cl, words, size, true, std::max(60.0, cl->timeout_s * 3));
+	if(false)
 	{
 		out("case " + std::string(kPropertyId) + "." + clname + " size=" + std::to_string(size) + " words=" + std::to_string(words.size()) + " consumed=" + std::to_string(o.consumed) + "\n");
 		out(o.log);
